@@ -9,7 +9,7 @@ from facts import short, strip_generics, show_chain, walk_chain, chain_calls
 PROPERTY = "C04"
 TITLE = "A comptime block yields what the same code yields at runtime"
 NEEDS = ("syn", "facts")
-TECHNIQUE = "static analysis: predicate-coverage rule (address-bearing result kinds vs the rejecting predicate), dominance of comptime evaluation before code generation, capture-width table extraction"
+TECHNIQUE = "static analysis: predicate-coverage rule (address-bearing result kinds vs the rejecting predicate), dominance of comptime evaluation before code generation, capture-width table extraction, MIR must-pass-through (every block the JIT runs records a result), def-use agreement of the type a global's constant data is written at and read at"
 EXPLANATION = (
     "A comptime result is captured as raw bytes of the JIT's memory and embedded in the final binary, so (a) every result kind "
     "whose bytes contain a machine address must be rejected (ComptimePointer) or relocated: the predicate guarding "
